@@ -106,11 +106,58 @@ def txn_blocks(rng, pool, cfg=None):
     return prog
 
 
+# a history counts as non-trivial for a property only if the behaviour the property is about was actually exercised (measured from the
+# per-run counters): C = counters
+NONTRIVIAL = {
+    "C30": lambda C: C.get("probe:flush_with_changes", 0) >= 2,
+    "C31": lambda C: C.get("probe:flush_with_changes", 0) >= 1 and (C.get("op:delete", 0) + C.get("op:set_parent", 0) + C.get("op:node_parent", 0)
+                                                                    + C.get("op:h_doc", 0) + C.get("op:label", 0) + C.get("op:k_rename", 0)) >= 1,
+    "C33": lambda C: C.get("probe:flush_with_changes", 0) >= 1 and (C.get("op:rollback", 0) + C.get("op:sp_rollback", 0) + C.get("op:sp_commit", 0)) >= 1,
+    "C34": lambda C: (C.get("op:get", 0) + C.get("op:requery", 0) + C.get("op:lazy", 0) + C.get("op:merge", 0) + C.get("op:refresh", 0)) >= 2,
+    "C35": lambda C: C.get("probe:flush_with_changes", 0) >= 1 and (C.get("op:delete", 0) + C.get("op:expunge", 0) + C.get("op:rollback", 0)
+                                                                    + C.get("op:sp_rollback", 0) + C.get("op:close", 0) + C.get("op:row_replace", 0)) >= 1,
+    "C36": lambda C: C.get("probe:flush_with_changes", 0) >= 1 and (C.get("op:set", 0) + C.get("op:bs_remove", 0) + C.get("op:bs_replace", 0)
+                                                                    + C.get("op:g_ops", 0) + C.get("op:set_p", 0) + C.get("op:tag_remove", 0)) >= 2,
+    "C37": lambda C: (C.get("op:set_parent", 0) + C.get("op:bs_append", 0) + C.get("op:bs_remove", 0) + C.get("op:bs_replace", 0) + C.get("op:tag_add", 0)
+                      + C.get("op:tag_remove", 0) + C.get("op:node_parent", 0) + C.get("op:follow", 0) + C.get("op:unfollow", 0) + C.get("op:set_p", 0)
+                      + C.get("op:g_ops", 0)) >= 2,
+    "C39": lambda C: C.get("probe:flush_with_changes", 0) >= 1 and (C.get("op:delete", 0) + C.get("op:bs_remove", 0) + C.get("op:h_doc", 0) + C.get("op:q_ops", 0)
+                                                                    + C.get("op:g_ops", 0) + C.get("op:expunge", 0) + C.get("op:expire", 0)) >= 1,
+    "C45": lambda C: sum(v for k, v in C.items() if k.startswith("probe:merge_")) >= 1,
+    "C46": lambda C: C.get("probe:external_write", 0) >= 1 and (C.get("op:read", 0) + C.get("op:refresh", 0) + C.get("op:populate_existing", 0)
+                                                                + C.get("op:requery", 0) + C.get("op:get", 0)) >= 1,
+    "C47": lambda C: C.get("probe:autoflush", 0) >= 1,
+    "C48": lambda C: C.get("probe:dropped_with_pending_change", 0) + C.get("probe:clean_object_released", 0) >= 1,
+    "C49": lambda C: sum(v for k, v in C.items() if k.startswith("probe:mutable_") and not k.startswith("probe:mutable_roundtrip")) >= 1
+    and C.get("probe:flush_with_changes", 0) >= 1,
+}
+
+
+NONTRIVIAL_TEXT = {
+    "C30": "at least two flushes that had pending changes",
+    "C31": "a flush with pending changes after at least one delete / re-parenting / orphaning / key change / label operation",
+    "C33": "a flush with pending changes and at least one rollback, savepoint rollback or savepoint release",
+    "C34": "at least two of get / query / lazy load / merge / refresh carried out",
+    "C35": "a flush with pending changes and at least one delete / expunge / rollback / savepoint rollback / close / row replacement",
+    "C36": "a flush with pending changes after at least two attribute or collection changes",
+    "C37": "at least two relationship mutations carried out (not skipped)",
+    "C39": "a flush with pending changes and at least one delete / orphaning / expunge / expire operation",
+    "C45": "at least one merge carried out",
+    "C46": "at least one external write followed by a read, refresh, populate_existing, query or get",
+    "C47": "at least one read that autoflushed pending changes",
+    "C48": "at least one object with a pending change dropped before the flush, or a clean object released",
+    "C49": "at least one in-place mutation of a Mutable value and a flush with pending changes",
+}
+
+
 def make_run(props):
     def run_case(case):
         c = dict(case)
         c["stop_on"] = tuple(props)
         res = OR.Run(c).run()
+        rule = NONTRIVIAL.get(props[0])
+        if rule is not None:
+            res["nontrivial"] = bool(rule(res["counters"]))
         mine, others = [], []
         for v in res["viol"]:
             if v["prop"] == "*":
@@ -128,7 +175,8 @@ def define(g, pid, props, title, technique, level_text, level_note, weights=None
     g.update(ID=pid, LEVEL=level, ENGINE="ormsim", TECHNIQUE=technique, LEVEL_TEXT=level_text, LEVEL_NOTE=level_note,
              TIERS={"quick": {"runs": quick, "secs": 35}, "thorough": {"runs": quick * 60, "secs": 420, "hashseeds": [0, 1, 2, 3]}},
              SHRINK=["prog", "faults"], MIN_BUDGET=250,
-             RULE=rule or ("history = seeded op list with state-relative arguments + universe/config; distinct = digest of config, ops and "
-                           "outcomes; non-trivial = at least one flush that had pending changes"),
+             RULE=rule or ("history = seeded op list with state-relative arguments + universe/config; distinct = digest of config, ops, "
+                           "outcomes and per-step object state vectors; non-trivial = " + NONTRIVIAL_TEXT.get(pid, "at least one flush that "
+                                                                                                              "had pending changes")),
              COMPONENTS_REAL=COMPONENTS_REAL, COMPONENTS_STUB=COMPONENTS_STUB, ASSUMPTIONS=ASSUMPTIONS, setup=setup,
              gen_case=make_gen(weights or {}, cfg_fn, nmin, nmax, shape, fault_fn), run_case=make_run(tuple(props)))
